@@ -497,7 +497,42 @@ class AwareASTNode(DataClassSerializeMixin):
 
         return None
 
+    def _find_attach_collision(
+        self, operation: t.Literal["create", "attach", "replace"]
+    ) -> tuple[AwareASTNode, AwareASTNode] | None:
+        """Checks whether `_attach_inner` would succeed, without changing anything.
+
+        Returns:
+            tuple[ASTNode, ASTNode] | None: the first child node that is attached to
+            a different parent and that parent. None if there is no such node.
+
+        Raises:
+            ASTNodeRegistryCollisionError: If this node's id (or the id of a detached node
+                in the subtree) is already in the registry
+        """
+        if self.id in AwareASTNode._nodes:
+            raise ASTNodeRegistryCollisionError(
+                new_node=self,
+                existing_node=AwareASTNode._nodes[self.id],
+                operation=operation,
+            )
+
+        for c in self.get_child_nodes():
+            if c.detached:
+                if (ret := c._find_attach_collision(operation=operation)) is not None:
+                    return ret
+            elif not c.is_attached_root:
+                assert c.parent is not None
+                return (c, c.parent)
+
+        return None
+
     def _attach(self, operation: t.Literal["create", "attach", "replace"]) -> None:
+        # Check everything first, so that a failed attach leaves all nodes as they were
+        if (ret := self._find_attach_collision(operation=operation)) is not None:
+            c, p = ret
+            raise ASTNodeParentCollisionError(self, c, p)
+
         if (ret := self._attach_inner(operation=operation)) is not None:
             c, p = ret
             raise ASTNodeParentCollisionError(self, c, p)
